@@ -334,6 +334,22 @@ def bounded(b):
                 M, N, cells, _ = raster([(60, 0, 2, 1), (64, 2, 2, 1), (67, 4, 2, 1), (72, 6, 2, 1)], 2, False, False, -1, 0, False, False, None, False, False)
                 got = {(int(r), int(c)): int(res[r, c]) for r, c in zip(*np.nonzero(res))}
                 b.case("roll/object_inputs_show_every_part", res.shape == (M, N) and got == cells, case, "shape %r (expected %r): four half notes in 4/4 at two columns per beat" % (res.shape, (M, N)))
+    # meters with three beats to the bar (3/4, 3/8, 3/2) under the default musical beats: three beats stay three beats
+    for (bts, btype) in ((3, 4), (3, 8), (3, 2)):
+        d_ = 4
+        beat = 4 * d_ // btype
+        bar = 3 * beat
+        def three():
+            p_ = G.build_part("P0", d_, ts=((0, bts, btype),), notes=[("a", 0, beat, "C", None, 4, 1, 1), ("b", beat, 2 * beat, "E", None, 4, 1, 1), ("c", bar, bar, "G", None, 4, 1, 1)], measures=[(0, bar), (bar, 2 * bar)])
+            p_.use_musical_beat()
+            return p_
+        for unit in ("beat", "auto"):
+            case = {"input": "Part", "time_signature": "%d/%d" % (bts, btype), "default_musical_beats": True, "time_unit": unit}
+            ok, res = b.guard("roll/no_exception", case, lambda: compute_pianoroll(three(), time_unit=unit, time_div=2, remove_silence=False).toarray())
+            if ok:
+                M, N, cells, _ = raster([(60, 0, 1, 1), (64, 1, 2, 1), (67, 3, 3, 1)], 2, False, False, -1, 0, False, False, None, False, False)
+                got = {(int(r), int(c)): int(res[r, c]) for r, c in zip(*np.nonzero(res))}
+                b.case("roll/object_inputs_show_every_part", res.shape == (M, N) and got == cells, case, "shape %r (expected %r): two bars of three beats at two columns per beat" % (res.shape, (M, N)))
     # a performed part made from a note array with track AND channel columns: the drum channel is channel 9, whatever the track is called
     for rows in ([(60, 0.0, 1.0, 64, 9, 0), (36, 0.0, 1.0, 100, 2, 9), (62, 1.0, 1.0, 70, 9, 3)], [(60, 0.0, 1.0, 64, 0, 0), (36, 0.5, 1.0, 100, 1, 9), (62, 1.0, 1.0, 70, 9, 1)]):
         na = np.array([(p_, o_, du_, v_, tr_, ch_, "n%d" % k) for k, (p_, o_, du_, v_, tr_, ch_) in enumerate(rows)],
